@@ -186,7 +186,7 @@ def c10(tier, seed):
 
 def c13(tier, seed):
     c = Check("C13", tier, seed)
-    c.rule = "MC: read_consistent as coded vs a device updating between any two accesses (3 fields, <=3 updates, liveness under fairness), negative configuration (single pass) must yield a torn value; traces: (a) bounds grid offset x width x window size on the real MMIO transport (mmio family, read_config/write_config operations), (b) every placement of <=2 (thorough: 3) device updates among the first 10 (16) accesses of each multi-field reader (blk capacity, socket CID, console size, MAC, 9p tag) on the model transport and the real modern MMIO transport"
+    c.rule = "MC: read_consistent as coded vs a device updating between any two accesses (3 fields, <=3 updates, liveness under fairness), negative configuration (single pass) must yield a torn value; traces: (a) bounds grid offset x width x window size on the real MMIO and PCI transports (mmio and pci/ops families, read_config/write_config operations), (b) every placement of <=2 (thorough: 3) device updates among the first 10 (16) accesses of each multi-field reader (blk capacity, socket CID, console size, MAC, 9p tag) on the model transport and the real modern MMIO transport"
     c.assumptions = ["legacy MMIO devices have no generation register: torn reads cannot be excluded there and are outside the property", "snapshot ids are carried by every byte the reader looks at"]
     c.add_mc(run_tlc_mc("ConfigMC", "Config_ok.cfg", workers=2, timeout=300))
     c.add_mc(run_tlc_mc("ConfigMC", "Config_bug_single_pass.cfg", workers=2, timeout=300), expect_violation=True)
@@ -200,6 +200,8 @@ def c13(tier, seed):
     v2 = validate_traces("MmioTrace", "MmioTrace.cfg", out2, idx2, max_events=1500)
     c.add_validation(v2, "mmio/config-bounds")
     c.samples.append({"family": "mmio", "scenario": idx2["scenarios"][3], "summary": idx2["summaries"][3]})
+    # the same bounds grid on the real PCI transport (device-configuration window of 0..256 bytes)
+    pci_family(c, "ops", "PciTrace", "PciTrace.cfg", seed, tier, max_events=1500)
     if not c.violations:
         os.remove(out)
         os.remove(out2)
@@ -281,7 +283,17 @@ def c14(tier, seed):
     return c.finish()
 
 
-PROPS = {"C14": c14, "C11": c11, "C12": c12, "C10": c10, "C13": c13, "C06": c06, "C08": c08, "C09": c09, "C01": c01, "C02": c02, "C03": c03, "C04": c04, "C05": c05}
+def c15(tier, seed):
+    c = Check("C15", tier, seed)
+    c.rule = "MC (ConsoleMC): the receive path transcribed from console.rs/embedded_io.rs against Console.tla, buffer capacity 3, stream of 7 bytes in chunks 1..3, the device filling at any instant (blocking reads are two-step), every interleaving of recv(peek)/recv(pop)/read/fill_buf+consume/read_ready; negative configuration (re-post while unread bytes remain) must be refused; traces: random API mixes with device chunks 1..4096 bytes on all transports x servicing policies x feature sets; every returned byte is tied to its stream position"
+    c.assumptions = ["stream bytes are position-coded (B(p) = (7p+3) mod 256); bulk reads are logged as (count, first byte, consecutive?)", "blocking reads are only issued when the device has input queued (liveness of an idle device is not part of the property)"]
+    c.add_mc(run_tlc_mc("ConsoleMC", "Console_ok.cfg", workers=4, timeout=600))
+    c.add_mc(run_tlc_mc("ConsoleMC", "Console_bug_early_repost.cfg", workers=4, timeout=600), expect_violation=True)
+    device_family(c, "console", "ConsoleTrace", "ConsoleTrace.cfg", seed, tier)
+    return c.finish()
+
+
+PROPS = {"C15": c15, "C14": c14, "C11": c11, "C12": c12, "C10": c10, "C13": c13, "C06": c06, "C08": c08, "C09": c09, "C01": c01, "C02": c02, "C03": c03, "C04": c04, "C05": c05}
 
 
 def main():
